@@ -218,9 +218,31 @@ pub fn c12_predicate(w: &World, dump: &PoolDump, ch: &Change, before: Option<&Po
             }
         }
     }
-    // (5) stage matches the proposal window (block-assembler node)
+    // (5) stage matches the proposal window (block-assembler node).  The window is read off the new main chain itself
+    // (own proposals and the uncles' of the blocks at distance closest..farthest from the next block, closer ones = gap),
+    // not off the node's ProposalView
+    let (chain_set, chain_gap) = {
+        use ckb_store::ChainStore;
+        let pw = snap.consensus().tx_proposal_window();
+        let (wc, wf) = (pw.closest(), pw.farthest());
+        let next = snap.tip_number() + 1;
+        let (mut set, mut gap) = (HashSet::new(), HashSet::new());
+        for h in next.saturating_sub(wf).max(1)..next {
+            if let Some(b) = snap.get_block_hash(h).and_then(|x| snap.get_block(&x)) {
+                let d = next - h;
+                for id in b.union_proposal_ids_iter() {
+                    if d >= wc && d <= wf { set.insert(id); } else if d < wc { gap.insert(id); }
+                }
+            }
+        }
+        (set, gap)
+    };
+    if &chain_set != view.set() || chain_gap.iter().any(|i| !chain_set.contains(i) && !view.contains_gap(i)) {
+        problems.push(("C12 the node's proposal view is not the proposal window over the new main chain".into(),
+            json!({"tip": snap.tip_number(), "only_on_chain": chain_set.difference(view.set()).filter_map(|i| w.by_short.get(i)).collect::<Vec<_>>(), "only_in_view": view.set().difference(&chain_set).filter_map(|i| w.by_short.get(i)).collect::<Vec<_>>()}), None));
+    }
     for e in &dump.entries {
-        let exp = if view.contains_proposed(&e.id) { Status::Proposed } else if view.contains_gap(&e.id) { Status::Gap } else { Status::Pending };
+        let exp = if chain_set.contains(&e.id) { Status::Proposed } else if chain_gap.contains(&e.id) { Status::Gap } else { Status::Pending };
         c(&format!("c12_stage_{}", status_name(exp)), 1);
         if w.straddle_tx.as_ref() == Some(&e.id) { c(&format!("c12_stage_of_straddling_submission_{}", status_name(exp)), 1); }
         if exp != e.status {
